@@ -1307,3 +1307,35 @@ Proof.
       rewrite N in X. exact X. }
     rewrite E. reflexivity.
 Qed.
+
+(* ------------------------------------------------------------------ a spectrum with more rows than selected operators *)
+(* exactly one operator selected (a single identifier, a one-element list, a pulse with one noise operator):
+   k >= 2 rows, two- or three-dimensional, are rejected by every analysis function *)
+Theorem spectrum_more_rows k kind h n_omega : 2 <= k ->
+  validate_spectrum (Build_spectrum_d kind [k; n_omega] h) 1 n_omega = Raise ValueError /\
+  validate_spectrum (Build_spectrum_d kind [k; k; n_omega] h) 1 n_omega = Raise ValueError.
+Proof.
+  intros Hk. unfold validate_spectrum, broadcastable. cbn.
+  assert (A : (k =? 1) = false) by (apply Nat.eqb_neq; lia). rewrite ?Nat.eqb_refl, A. cbn. rewrite ?andb_false_r. split; reflexivity.
+Qed.
+
+Theorem analysis_more_rows a k s : valid_analysis a -> n_selected (map n_id (p_n (a_pulse a))) (a_ids a) = 1 -> 2 <= k ->
+  s_kind s = s_kind (a_spectrum a) -> s_shape s = [k; a_omega_len a] \/ s_shape s = [k; k; a_omega_len a] ->
+  let a' := Build_analysis_d (a_pulse a) (a_which a) (a_ids a) s (a_omega_kind a) (a_omega_len a) (a_omega_tag a)
+                             (a_smallness a) (a_test_conv a) (a_omega_isdict a) (a_spacing a) in
+  validate_infidelity a' = Raise ValueError /\ validate_decay_amplitudes a' = Raise ValueError /\
+  (forall cs ci, validate_infidelity_derivative a' cs ci = Raise ValueError).
+Proof.
+  intros (Hw & Hi & Ht & Hs & Ho & Hc & _) H1 Hk Hkind Hshape a'.
+  assert (V : validate_spectrum s 1 (a_omega_len a) = Raise ValueError).
+  { destruct s as [kd sh hm]. simpl in Hshape. destruct (spectrum_more_rows k kd hm (a_omega_len a) Hk) as [V2 V3].
+    destruct Hshape as [-> | ->]; assumption. }
+  assert (W : (if String.eqb (a_which a) "total" then ok
+               else check (omega_matches (a_pulse a) (a_omega_tag a)) ValueError;; check (p_pc (a_pulse a)) CalculationError) = ok).
+  { destruct Hw as [Hw'|[Hw'|[]]]; rewrite <- Hw'; simpl; auto. destruct (Hc (eq_sym Hw')) as [-> ->]. reflexivity. }
+  unfold validate_infidelity, validate_decay_amplitudes, validate_infidelity_derivative, a'.
+  cbn [a_which a_ids a_pulse a_test_conv a_spectrum a_omega_kind a_omega_tag a_omega_len a_smallness].
+  rewrite (proj2 (validate_option_spec _ _) Hw). cbn [bind].
+  rewrite (validate_ids_sound _ _ Hi). cbn [bind]. rewrite Ht, Hkind, Hs, Ho. cbn [andb check bind].
+  rewrite W. cbn [bind]. rewrite H1, V. repeat split; reflexivity.
+Qed.
